@@ -1,4 +1,5 @@
 import bisync
+import hub
 import oneway
 import libchecks
 
@@ -8,9 +9,12 @@ CHECKS = {
     "C07": bisync.c07,
     "C08": bisync.c08,
     "C01": libchecks.c01,
+    "C03": hub.c03,
     "C04": oneway.c04,
     "C05": libchecks.c05,
     "C09": oneway.c09,
+    "C10": hub.c10,
+    "C11": hub.c11,
     "C14": oneway.c14,
     "C15": oneway.c15,
     "C16": libchecks.c16,
